@@ -121,6 +121,11 @@ def build(spec):
 
         def F(x, verbose=None):         # noqa: F811  (the ignored parameter exists only in the ignore configuration)
             return F1(x)
+    elif spec.get('kwonly'):
+        F1 = F
+
+        def F(x, *, unit=None):         # noqa: F811  (a keyword-only default: key generation adds it to the named arguments of every call)
+            return F1(x)
 
     unhash = set(spec.get('unhashable', []))
 
@@ -187,10 +192,10 @@ def build(spec):
     def key_of(e):
         if se is not None and e == se and sentinel is not None:
             return sentinel
-        if ignore is not None:
+        if ignore is not None or spec.get('kwonly'):
             # the storage key as the key path defines it (the real _keygen and the raw keymap; their own behaviour is C09-C11)
             import klepto._inspect as ki
-            a2, k2 = ki._keygen(F, ignore, arg_of(e))
+            a2, k2 = ki._keygen(F, ignore if ignore is not None else (), arg_of(e))
             return km.keymap()(*a2, **k2)
         return ('x', arg_of(e))
 
@@ -315,6 +320,17 @@ def eval_clause(clause, spec, pre, post, outcome, value, ctx):
             return sum(post.stats) == sum(pre.stats) + 1
     if name == 'result.equals_function':
         return (not normal) or value == ctx['val'](arg)
+    if name == 'stored_under_key':
+        # whatever the call stored, it stored under key(args): no other key is new in memory or in the archive
+        def keys_of(sn):
+            out = list(sn.mem)
+            for d in (sn.A, sn.S):
+                if d:
+                    out += list(d)
+            return out
+        before = keys_of(pre)
+        new = [k for k in keys_of(post) if not any(k == b for b in before)]
+        return all(kd and k == key for k in new)
     if name == 'evals.at_most_once':
         return len(calls) <= 1
     if name == 'evals.original_arguments':
@@ -487,7 +503,7 @@ def eval_inv(name, spec, sg, ctx):
     if name.startswith('Inv_val'):
         which = name[name.index('[') + 1:-1]
         d = {'mem': sg.mem, 'A': sg.A, 'S': sg.S}[which]
-        if spec.get('ignore') is not None:
+        if spec.get('ignore') is not None or spec.get('kwonly'):
             # keys carry the ignored parameter too: x is the value that follows the name 'x' in the flat raw key
             return all(isinstance(v, tuple) and v and v[0] == 'R' and isinstance(k, tuple) and 'x' in k and
                        v == ctx['val'](k[k.index('x') + 1]) for k, v in d.items())
@@ -520,7 +536,7 @@ def spec_of(spec0, w, ctx):
             return 'se'
         if isinstance(k, tuple) and len(k) == 2 and k[0] == 'x' and isinstance(k[1], int):
             return k[1] - BASE
-        if spec0.get('ignore') is not None:
+        if spec0.get('ignore') is not None or spec0.get('kwonly'):
             for e in range(int(spec0.get('universe', 3)) + 2):
                 try:
                     if ctx['key_of'](e) == k:
